@@ -73,6 +73,8 @@ SHAPES = {
     "two_dicts_same_rev": case(args=[[("class", S("z"))], [("class", X)]]),
     "dict_kw_same": case(args=[[("class", X)]], kw=[("class_", X)]),
     "plain_html": case(args=[[("class", X)]], kw=[("class_", HV("y&amp;1"))]),
+    "consolidated_plain_html": case(args=[[("class", S("card"))], [("class", X)]], kw=[("class_", HV("y&amp;1"))], via="consolidate", children=True),
+    "consolidated_single": case(kw=[("title", X)], via="consolidate"),
     "html_plain": case(args=[[("class", HV("y"))]], kw=[("class_", X)]),
     "plain_html_plain": case(args=[[("class", X)], [("class", HV("h&lt;"))]], kw=[("class", X)]),
     "html_plain_html": case(args=[[("k", HV("h1"))], [("k", X)], [("k", HV("h2"))]]),
@@ -345,7 +347,7 @@ def rand_case(rng):
                 v = S("a:b;")
             ops.append({"op": "add_style", "v": v, "prepend": rng.random() < 0.5})
     name = rng.choice(["div", "span", "img", "input", "x-y", "a", "svg:g"])
-    return {"name": name, "via": rng.choice(["fn", "Tag"]), "ctor": {"args": args, "kw": kw}, "ops": ops,
+    return {"name": name, "via": rng.choice(["fn", "Tag", "fn", "Tag", "consolidate"]), "ctor": {"args": args, "kw": kw}, "ops": ops,
             "children": rng.random() < 0.3, "after_failures": rng.randint(1, 5) if rng.random() < 0.15 else 0}
 
 
